@@ -414,6 +414,25 @@ def deleted_spec(bonds, D, R):
     return out
 
 
+def in_normal_form(mol):
+    """is the input a fixed point of kekule() + thiele()? (an input in Kekule form or in the 'wrong' condensed-pyrrole tautomer
+    is legitimately rewritten by the aromaticity repair even far from the edit)"""
+    k = id(mol)
+    if _nf_cache.get('k') != k:
+        try:
+            c = mol.copy()
+            c.kekule()
+            c.thiele()
+            v = canon_mol_text(render_mol(c)) == canon_mol_text(render_mol(mol))
+        except Exception:
+            v = False
+        _nf_cache['k'], _nf_cache['v'], _nf_cache['ref'] = k, v, mol
+    return _nf_cache['v']
+
+
+_nf_cache = {}
+
+
 def far_from_edit(mol, edited):
     """atoms whose ring system (rings fused through shared atoms, via sssr) and direct neighbours contain no edited atom and
     no neighbour of an edited atom"""
@@ -440,7 +459,7 @@ def far_from_edit(mol, edited):
     for n in list(bad):
         bad |= set(mol._bonds.get(n, ()))
     val = set(mol._atoms) - bad
-    _far_cache['key'], _far_cache['val'] = key, val
+    _far_cache['key'], _far_cache['val'], _far_cache['ref'] = key, val, mol   # keep the molecule alive: id() must stay unique
     return val
 
 
@@ -527,7 +546,7 @@ def _clauses(q, r, mol, kw=None, fix_rings=False, limit=12, builtin=False):
                 bad.append(('frame-atoms', f'match {mp}: unnamed atom {n} changed hydrogens '
                                            f'{sa.implicit_hydrogens}->{a.implicit_hydrogens}'))
             if fix_rings and a.implicit_hydrogens != sa.implicit_hydrogens and sa.implicit_hydrogens is not None \
-                    and n in far_from_edit(mol, patched | dele):
+                    and n in far_from_edit(mol, patched | dele) and in_normal_form(mol):
                 # with aromaticity repair on, kekule()/thiele() may move hydrogens inside a ring system the edit touched;
                 # an atom whose whole ring system (and neighbourhood) is away from the edit must keep its count
                 bad.append(('frame-atoms', f'match {mp}: unnamed atom {n}, away from the edited atoms, changed hydrogens '
@@ -692,7 +711,11 @@ BLOCKS = ['CC(=O)O', 'OC(=O)c1ccccc1', 'CN', 'CCNCC', 'Nc1ccccc1', 'C1CCNCC1', '
           'OC(=O)CCC(=O)O', 'NCCN', 'C=CCBr', 'CCCBr', 'BrCC(=O)OC', 'OC(=O)C(F)(F)F', 'CC(N)C(=O)O',
           'FC(F)(F)c1ccc(Br)cc1', 'Nc1ccc(Br)cc1', 'OB(O)C1CC1', 'CC(C)(C)OC(=O)NCCN', 'O=C1CCCCC1', 'CNC',
           'c1ccc(Nc2ccccc2)cc1', 'CNc1ccccc1', 'C1CNCO1', 'CNOC', 'CNNC(C)=O', 'BrC=C', 'CC=CBr', 'CC(Cl)=O', 'OB(O)C=C',
-          'OB(O)C#CC', 'OB(O)C=CC', 'CCl', 'CCCl', 'CCBr', 'BrCCCBr', 'O=CCC=O', 'C[C@H](Br)CC', '[Na+].[Cl-]', 'O']
+          'OB(O)C#CC', 'OB(O)C=CC', 'CCl', 'CCCl', 'CCBr', 'BrCCCBr', 'O=CCC=O', 'C[C@H](Br)CC',
+          # several reactive sites in one molecule (one match of a pattern is combined with several matches of another)
+          'OCCO', 'NCC(C)CCN', 'OB(O)c1ccc(cc1)B(O)O', 'Brc1ccc(Br)cc1', 'Nc1ccc(N)cc1', 'C#CCCC#C', 'O=C=NCCN=C=O',
+          'ClS(=O)(=O)CCS(Cl)(=O)=O', 'OC(=O)c1ccc(cc1)C(O)=O', 'CNCCNC', 'O=CCCC(C)=O',
+          'NCC1=C2C=CN=C2C=CN1', 'OC(=O)CC1=C2C=CN=C2C=CN1', 'OCC1=C2C=CN=C2C=CN1', '[Na+].[Cl-]', 'O']
 
 SYNTH_REACTORS = [
     # (name, patterns, products, kwargs)
@@ -1035,6 +1058,193 @@ def string_stable(m, rounds=3):
         return False
 
 
+def reactor_match_clauses(patterns, products, kw, mols, cap=80):
+    """"one product per distinct match" for multi-reactant templates, real code only: the one-shot `Reactor` (matcher filter
+    off) must deliver exactly the states obtained by applying the UNITED template (`reduce(or_, patterns)` ->
+    `reduce(or_, products)`) with `Transformer` to the union of every ordered choice of reactant molecules, keeping the matches
+    that send pattern i into molecule i. A Reactor that raises while the united template applies cleanly is a failure."""
+    try:
+        return _reactor_match_clauses(patterns, products, kw, mols, cap)
+    except Exception as e:
+        return [('product-graph', f'the reactor match oracle could not handle a product: {type(e).__name__}: {e}')]
+
+
+def _reactor_match_clauses(patterns, products, kw, mols, cap):
+    from functools import reduce
+    from operator import or_
+    from chython import Reactor, Transformer
+    if len(products) != 1 or len(patterns) < 2 or len(mols) < len(patterns) or not all(string_stable(m) for m in mols):
+        return []
+    kw2 = {k: v for k, v in dict(kw).items() if k in ('delete_atoms', 'fix_aromatic_rings', 'fix_tautomers')}
+    uq, ur = reduce(or_, patterns), products[0]
+    pat_atoms = [set(p) for p in patterns]
+    if sum(len(a) for a in pat_atoms) != len(uq) or set(uq) != set().union(*pat_atoms):
+        return []     # colliding template numbers: out of the domain
+    T = Transformer(uq, ur, automorphism_filter=False, **kw2)
+    exp, objs = set(), {}
+    for idx in itertools.permutations(range(len(mols)), len(patterns)):
+        u, owner = None, []
+        for i in idx:
+            before = set(u) if u is not None else set()
+            u = mols[i].copy() if u is None else u | mols[i]
+            owner.append(set(u) - before)
+        ignored = [mols[i] for i in range(len(mols)) if i not in idx]
+        try:
+            mps = list(itertools.islice(uq.get_mapping(u, automorphism_filter=False), cap + 1))
+            prods = list(itertools.islice(T(u), cap + 1))
+        except Exception:
+            return []   # the template builds an impossible product: not a question of match enumeration
+        if len(mps) > cap or len(mps) != len(prods):
+            return []
+        for mp, pr in zip(mps, prods):
+            if all(all(mp[a] in own for a in atoms) for atoms, own in zip(pat_atoms, owner)):
+                st = state_key([pr] + ignored)
+                exp.add(st)
+                objs.setdefault(st, [pr] + ignored)
+    R = Reactor(patterns, products, one_shot=True, automorphism_filter=False, **kw2)
+    got = set()
+    try:
+        for i, rxn in enumerate(R(*[m.copy() for m in mols])):
+            if i > cap:
+                return []
+            st = state_key(rxn.products)
+            got.add(st)
+            objs.setdefault(st, list(rxn.products))
+    except Exception as e:
+        return [('one-product-per-match', f'Reactor raised {type(e).__name__}: {e} after {len(got)} of {len(exp)} distinct products '
+                                          f'(reactants {[sig_str(m) for m in mols]})')]
+    bad = []
+    for st in sorted(exp - got)[:3]:
+        if all(string_stable(m) for m in objs[st]):
+            bad.append(('one-product-per-match', f'product state {list(st)} of a match of the united template is not delivered by '
+                                                 f'the Reactor (reactants {[sig_str(m) for m in mols]})'))
+    for st in sorted(got - exp)[:3]:
+        if all(string_stable(m) for m in objs[st]):
+            bad.append(('one-product-per-match', f'Reactor delivers {list(st)} which no match of the united template produces '
+                                                 f'(reactants {[sig_str(m) for m in mols]})'))
+    return bad
+
+
+def switch_clauses(q, r, mol, kw=None, limit=6):
+    """the post-processing switches mean what they say (real code only): for either value of `fix_tautomers`, the products
+    built with `fix_aromatic_rings=True` are exactly the products built with `fix_aromatic_rings=False` followed by
+    `kekule(); thiele(fix_tautomers=…)` done here by hand on a copy. (That the `fix_aromatic_rings=False` product is the
+    plain edit is the frame / named clauses' business.)"""
+    try:
+        return _switch_clauses(q, r, mol, kw, limit)
+    except Exception as e:
+        return [('product-graph', f'the switch oracle could not handle a product: {type(e).__name__}: {e}')]
+
+
+def _post(ms, ft):
+    out = []
+    for m in ms:
+        c = m.copy()
+        c.kekule()
+        c.thiele(fix_tautomers=ft)
+        out.append(c)
+    return out
+
+
+def kekulized(m):
+    """the same molecule in Kekule form (None when it has no aromatic bond or kekule() refuses)"""
+    if not any(int(b) == 4 for _, _, b in m.bonds()):
+        return None
+    c = m.copy()
+    try:
+        c.kekule()
+    except Exception:
+        return None
+    return c
+
+
+def has_aromatic(m):
+    return any(int(b) == 4 for _, _, b in m.bonds())
+
+
+def _switch_clauses(q, r, mol, kw, limit):
+    bad = _switch_clauses1(q, r, mol, kw, limit)
+    mk = kekulized(mol)
+    if mk is not None and q < mk:
+        bad += [(c, 'Kekule-form input: ' + d) for c, d in _switch_clauses1(q, r, mk, kw, limit, no_arom=not has_aromatic(r))]
+    return bad
+
+
+def _switch_clauses1(q, r, mol, kw, limit, no_arom=False):
+    from chython import Transformer
+    kw = {k: v for k, v in dict(kw or {}).items() if k in ('delete_atoms', 'automorphism_filter')}
+    bad = []
+    for ft in (True, False):
+        try:
+            raw = list(itertools.islice(Transformer(q, r, fix_aromatic_rings=False, fix_tautomers=ft, **kw)(mol), limit))
+        except Exception as e:
+            bad.append(('switches', f'fix_aromatic_rings=False, fix_tautomers={ft}: Transformer raised {type(e).__name__}: {e}'))
+            continue
+        if no_arom and any(has_aromatic(p) for p in raw):
+            bad.append(('switches', f'fix_aromatic_rings=False (fix_tautomers={ft}): neither the input nor the replacement has an '
+                                    f'aromatic bond but the product {sig_str(next(p for p in raw if has_aromatic(p)))} has'))
+        try:
+            want = [canon_mol_text(render_mol(c)) for c in _post(raw, ft)]
+        except Exception:
+            want = None     # the plain edit cannot be aromatised (impossible ring): the repairing variant must refuse too
+        try:
+            fixed = list(itertools.islice(Transformer(q, r, fix_aromatic_rings=True, fix_tautomers=ft, **kw)(mol), limit))
+            got = [canon_mol_text(render_mol(c)) for c in fixed]
+        except Exception:
+            got = None
+        if want != got:
+            i = next((i for i, (a, b) in enumerate(zip(want or [], got or [])) if a != b), 0)
+            bad.append(('switches', f'fix_tautomers={ft}: product {i} with fix_aromatic_rings=True is '
+                                    f'{(got or ["<raises>"])[min(i, len(got or [1]) - 1)][:160] if got else "<raises>"} but kekule()+thiele() of the '
+                                    f'fix_aromatic_rings=False product is {(want[i][:160] if want and i < len(want) else "<raises>")}'))
+    return bad
+
+
+def reactor_switch_clauses(patterns, products, kw, mols, cap=30):
+    """same relation for the public one-shot `Reactor`, on product states"""
+    try:
+        from chython import Reactor
+        kw = {k: v for k, v in dict(kw or {}).items() if k in ('delete_atoms', 'automorphism_filter')}
+        bad = []
+        variants = [(mols, False)]
+        kms = [kekulized(m) or m for m in mols]
+        if any(has_aromatic(m) for m in mols) and not any(has_aromatic(m) for m in kms):
+            variants.append((kms, not any(has_aromatic(p) for p in products)))
+        for (mols, no_arom), ft in itertools.product(variants, (True, False)):
+            def run(fix):
+                R = Reactor(patterns, products, fix_aromatic_rings=fix, fix_tautomers=ft, **kw)
+                out = []
+                for rx in itertools.islice(R(*[m.copy() for m in mols]), cap + 1):
+                    same = {render_mol(x) for x in rx.reactants}
+                    out.append([(p, render_mol(p) in same) for p in rx.products])    # (molecule, is an untouched spectator)
+                return out
+            try:
+                raw = run(False)
+            except Exception as e:
+                bad.append(('switches', f'Reactor fix_aromatic_rings=False, fix_tautomers={ft} raised {type(e).__name__}: {e}'))
+                continue
+            if len(raw) > cap:
+                continue
+            if no_arom and any(has_aromatic(p) for ps in raw for p, _ in ps):
+                bad.append(('switches', f'Reactor fix_aromatic_rings=False (fix_tautomers={ft}): Kekule-form reactants '
+                                        f'{[sig_str(m) for m in mols]} and a replacement without aromatic bonds give an aromatic product'))
+            try:   # spectator molecules are handed through as they came; only what the template produced is repaired
+                want = {state_key([p if sp else _post([p], ft)[0] for p, sp in ps]) for ps in raw}
+            except Exception:
+                want = None
+            try:
+                got = {state_key([p for p, _ in ps]) for ps in run(True)}
+            except Exception:
+                got = None
+            if want != got:
+                bad.append(('switches', f'Reactor fix_tautomers={ft}: states with fix_aromatic_rings=True {sorted(got)[:2] if got else got} differ '
+                                        f'from kekule()+thiele() of the fix_aromatic_rings=False states {sorted(want)[:2] if want else want} '
+                                        f'(reactants {[sig_str(m) for m in mols]})'))
+        return bad
+    except Exception as e:
+        return [('product-graph', f'the reactor switch oracle could not handle a product: {type(e).__name__}: {e}')]
+
+
 def state_key(ms):
     return tuple(sorted(sig_str(m) for m in ms))
 
@@ -1160,6 +1370,8 @@ def probe_reactor(inp):
         bad += reactor_clauses(pats, prods, inp.get('kwargs') or {}, mols, random.Random(seed),
                                builtin=inp.get('template', '').startswith('reactions'))
     bad += exhaustive_clauses(pats, prods, inp.get('kwargs') or {}, mols)
+    bad += reactor_match_clauses(pats, prods, inp.get('kwargs') or {}, mols)
+    bad += reactor_switch_clauses(pats, prods, inp.get('kwargs') or {}, mols)
     if bad:
         return True, '; '.join(f'{c}: {d}' for c, d in bad[:4])
     return False, 'all reactor clauses hold'
@@ -1177,6 +1389,14 @@ def reactor_inputs(ctx, patterns, n_sets):
     for spect, pos in (('CNCC', 'last'), ('CCOCC', 'first')):
         ms = first + [(spect, smiles(spect))] if pos == 'last' else [(spect, smiles(spect))] + first
         out.append(('+'.join(b for b, _ in ms), [m.copy() for _, m in ms]))
+    # multi-site set: for every pattern the candidate with the most matches, so that one match of a pattern is combined with
+    # several matches of the others (state kept between the combinations of `lazy_product` shows up here), both orders
+    def nmatch(p, m):
+        return len(list(itertools.islice(p.get_mapping(m, automorphism_filter=False), 6)))
+    multi = [max(c, key=lambda bm, p=p: nmatch(p, bm[1])) for p, c in zip(patterns, cands)]
+    if len(patterns) > 1 and any(nmatch(p, bm[1]) > 1 for p, bm in zip(patterns, multi)):
+        for ms in (multi, multi[::-1]):
+            out.append(('+'.join(b for b, _ in ms), [m.copy() for _, m in ms]))
     # two different molecules for one of the patterns (both can react with the same partner)
     for pi, c in enumerate(cands):
         if len(c) >= 2 and len(patterns) > 1:
@@ -1205,7 +1425,9 @@ EXTRA_MOLS = ['CCCCC', 'CC(C)CCC', 'CCCCO', 'OCCCC', 'COC', 'CCOCC', 'CN(C)C', '
               'C[C@H](OC)CBr', 'C[C@@H](OC)CBr', 'C[C@@H](O)CC', 'C[C@H](N)C(=O)O', 'C[C@](O)(CC)C(C)C', 'O[C@H]1CCCC[C@@H]1C',
               'C/C=C/CO', 'C/C=C\\CO', 'OC/C=C/C(C)O', 'CC=[C@]=CCO', 'CC=[C@@]=CCO', 'C[C@H](Cl)/C=C/C', 'Br[C@H](C)CCBr',
               'CC(CO)=[C@]=CC', 'CC(CO)=[C@@]=C(C)CC', 'C/C(CO)=C/C', 'CC/C(C)=C(/C)CO', 'C/C(CO)=C(\\C)CC',
-              'BrCCc1cnc[nH]1', 'BrCCc1c[nH]cn1', 'Cc1cc[nH]n1', 'OCc1nnn[nH]1', 'BrCCc1ccncc1']
+              'BrCCc1cnc[nH]1', 'BrCCc1c[nH]cn1', 'Cc1cc[nH]n1', 'OCc1nnn[nH]1', 'BrCCc1ccncc1',
+              # condensed pyrrole tautomers: thiele(fix_tautomers=True) moves the hydrogen, fix_tautomers=False does not
+              'BrCC1=C2C=CN=C2C=CN1', 'OCC1=C2C=CN=C2C=CN1', 'CC(O)C1=C2C=CN=C2C=CN1']
 
 
 def molecules_for(ctx, n_corpus):
@@ -1265,6 +1487,10 @@ def correspond(ctx):
                     if vm is mol:   # the public default (aromaticity repair on)
                         for cl, det in clauses(q, r, vm, kw, fix_rings=True, limit=4 if ctx.quick else 12):
                             ctx.fail(f'C16/{cl}', f'{name} on {vtag} (fix_rings=True): {det}', replay_input(name, q, r, kw, vm, True))
+                    if vm is mol and mol.rings_count and hit[name] <= (10 if ctx.quick else 40):
+                        ctx.dist('switches-checked')
+                        for cl, det in switch_clauses(q, r, vm, kw, limit=3 if ctx.quick else 5):
+                            ctx.fail(f'C16/{cl}', f'{name} on {vtag}: {det}', replay_input(name, q, r, kw, vm))
                     if has_stereo(vm):
                         ctx.dist('stereo-checked')
                         for fr in ((True,) if ctx.quick else (True, False)):
@@ -1334,7 +1560,7 @@ def correspond(ctx):
         except Exception as e:
             ctx.broke('correspondence', 'synthetic-template-parse', f'{name}: {type(e).__name__}: {e}')
     for name, pats, prods, kw, builtin in rxs:
-        sets = reactor_inputs(ctx, pats, 2 if ctx.quick else 8)
+        sets = reactor_inputs(ctx, pats, 1 if ctx.quick else 6)
         if not sets:
             ctx.dist('reactor-no-input')
             ctx.notes.append(f'no building block matches reactor {name}')
@@ -1345,6 +1571,13 @@ def correspond(ctx):
             if k:
                 for cl, det in reactor_clauses(pats, prods, kw, ms, rng, builtin=builtin):
                     ctx.fail(f'C16/{cl}', f'{name} on {tag}: {det}', reactor_replay(name, pats, prods, kw, ms))
+                if any(m.rings_count for m in ms):
+                    for cl, det in reactor_switch_clauses(pats, prods, kw, ms):
+                        ctx.fail(f'C16/{cl}', f'{name} on {tag}: {det}', reactor_replay(name, pats, prods, kw, ms))
+                if sum(len(m) for m in ms) <= 45:
+                    ctx.dist('reactor-match-checked')
+                    for cl, det in reactor_match_clauses(pats, prods, kw, ms):
+                        ctx.fail(f'C16/{cl}', f'{name} on {tag}: {det}', reactor_replay(name, pats, prods, kw, ms))
         # exhaustive mode (one_shot=False): superset of the one-shot mode; closure of single edits for one-pattern templates
         for tag, ms in (sets[:3] if ctx.quick and builtin else sets):
             if sum(len(m) for m in ms) > 40:
@@ -1444,6 +1677,7 @@ def transform_failures(inp, numbering=True):
     if has_stereo(mol):
         for fr in (True, False):
             bad += stereo_clauses(q, r, mol, kw, fix_rings=fr, limit=50)
+    bad += switch_clauses(q, r, mol, kw, limit=12)
     if numbering:
         bad += numbering_clauses(q, r, mol, kw)
     return bad
